@@ -21,3 +21,124 @@ Proof.
     rewrite Hw. rewrite two64_eq. destruct (Z.ltb_spec (off + len - 2 * two63) off); [|lia]. cbn [orb].
     destruct (Z.ltb_spec (slen - off) len); [reflexivity|lia].
 Qed.
+
+(* ---------------------------------------------------------------------------------------------
+   T1: the two length loops of asn1/marshal.go (lengthLength, base128IntLength), translated on every run as
+   fuelled `while` loops, compute the number of octets the model's emitters (len_bytes, append_base128)
+   write - for every machine integer, and the fuel never runs out (the result is never the on_fuel value -1) *)
+From Coq Require Import List ZifyBool.
+From V Require Import Base.Bytes ASN1.DerBase ASN1.DerHeader ASN1.DerHeaderProofs.
+Import ListNotations.
+
+Lemma add64_small a : 0 <= a <= 1000 -> add64 a 1 = a + 1.
+Proof.
+  intros Ha. unfold add64. apply wrap64_id. unfold in_i64. rewrite max_i64_eq, min_i64_eq.
+  pose proof two63_pos. assert (1001 < two63) by reflexivity. lia.
+Qed.
+
+Lemma shr64_8 i : shr64 i 8 = i / 256.   Proof. reflexivity. Qed.
+Lemma shr64_7 i : shr64 i 7 = i / 128.   Proof. reflexivity. Qed.
+
+Lemma zlen_app_one {A} (l : list A) (x : A) : zlen (l ++ [x]) = zlen l + 1.
+Proof. unfold zlen. rewrite app_length. cbn [length]. lia. Qed.
+
+Lemma while_fuel_S {S : Type} k (c : S -> bool) (b : S -> S) s :
+  while_fuel (Datatypes.S k) c b s = if c s then while_fuel k c b (b s) else Some s.
+Proof. reflexivity. Qed.
+
+Lemma len_bytes_S f i :
+  len_bytes (S f) i = if i >? 255 then len_bytes f (i / 256) ++ [zb (i mod 256)] else [zb i].
+Proof. reflexivity. Qed.
+
+Section LengthLoop.
+  Variables (cond : Z * Z -> bool) (body : Z * Z -> Z * Z).
+  Hypothesis Hcond : forall nb i, cond (nb, i) = (i >? 255).
+  Hypothesis Hbody : forall nb i, body (nb, i) = (add64 nb 1, shr64 i 8).
+
+  Lemma length_loop_spec : forall f i nb F,
+    0 <= i < 256 ^ Z.of_nat (S f) -> 0 <= nb -> nb + Z.of_nat f <= 1000 -> (S f <= F)%nat ->
+    exists i', while_fuel F cond body (nb, i) = Some (nb + zlen (len_bytes (S f) i) - 1, i').
+  Proof.
+    induction f as [|f IH]; intros i nb F Hi Hnb Hb HF.
+    - destruct F as [|F]; [lia|]. cbn [while_fuel]. rewrite Hcond.
+      change (256 ^ Z.of_nat 1) with 256 in Hi.
+      cbn [len_bytes]. destruct (Z.gtb_spec i 255) as [Hgt|Hle]; [lia|].
+      exists i. f_equal. f_equal. unfold zlen. cbn [length]. lia.
+    - destruct F as [|F]; [lia|]. cbn [while_fuel]. rewrite Hcond.
+      rewrite (len_bytes_S (S f)). destruct (Z.gtb_spec i 255) as [Hgt|Hle].
+      + rewrite Hbody, shr64_8, add64_small by lia.
+        assert (Hq : 0 <= i / 256 < 256 ^ Z.of_nat (S f)).
+        { rewrite (Nat2Z.inj_succ (S f)), Z.pow_succ_r in Hi by lia.
+          split; [apply Z.div_pos; lia|apply Z.div_lt_upper_bound; lia]. }
+        destruct (IH (i / 256) (nb + 1) F Hq ltac:(lia) ltac:(lia) ltac:(lia)) as [i' Hi'].
+        exists i'. rewrite Hi'. f_equal. f_equal. rewrite zlen_app_one. lia.
+      + exists i. f_equal. f_equal. unfold zlen. cbn [length]. lia.
+  Qed.
+End LengthLoop.
+
+Lemma length_length_meaning i :
+  0 <= i <= max_i64 -> length_length_gen i = zlen (len_bytes 8 i) /\ 1 <= length_length_gen i <= 8.
+Proof.
+  intros Hi. rewrite max_i64_eq in Hi. unfold length_length_gen.
+  assert (Hr : 0 <= i < 256 ^ Z.of_nat 8).
+  { change (256 ^ Z.of_nat 8) with (2 * two63). pose proof two63_pos. lia. }
+  match goal with |- context [while_fuel ?F ?c ?b ?s] =>
+    destruct (length_loop_spec c b ltac:(intros; cbv beta iota; first [reflexivity | lia]) (fun _ _ => eq_refl) 7%nat i 1 F Hr ltac:(lia) ltac:(cbn; lia) ltac:(lia)) as [i' Hw]
+  end.
+  rewrite Hw.
+  pose proof (len_bytes_length 7 i 7 Hr) as Hl.
+  unfold zlen in *. split; lia.
+Qed.
+
+Section Base128Loop.
+  Variables (cond : Z * Z -> bool) (body : Z * Z -> Z * Z).
+  Hypothesis Hcond : forall l i, cond (l, i) = (i >? 0).
+  Hypothesis Hbody : forall l i, body (l, i) = (add64 l 1, shr64 i 7).
+
+  Lemma base128_loop_spec : forall f m l F,
+    0 <= m < 128 ^ Z.of_nat f -> 0 <= l -> l + Z.of_nat f <= 1000 -> (S f <= F)%nat ->
+    exists i', while_fuel F cond body (l, m) = Some (l + zlen (b128_hi f m), i').
+  Proof.
+    induction f as [|f IH]; intros m l F Hm Hl Hb HF.
+    - destruct F as [|F]; [lia|]. cbn [while_fuel]. rewrite Hcond.
+      change (128 ^ Z.of_nat 0) with 1 in Hm.
+      destruct (Z.gtb_spec m 0) as [Hgt|Hle]; [lia|].
+      exists m. cbn [b128_hi]. f_equal. f_equal. unfold zlen. cbn [length]. lia.
+    - destruct F as [|F]; [lia|]. cbn [while_fuel]. rewrite Hcond. cbn [b128_hi].
+      destruct (Z.gtb_spec m 0) as [Hgt|Hle]; destruct (Z.leb_spec m 0) as [Hle'|Hgt']; try lia.
+      + rewrite Hbody, shr64_7, add64_small by lia.
+        assert (Hq : 0 <= m / 128 < 128 ^ Z.of_nat f).
+        { rewrite Nat2Z.inj_succ, Z.pow_succ_r in Hm by lia.
+          split; [apply Z.div_pos; lia|apply Z.div_lt_upper_bound; lia]. }
+        destruct (IH (m / 128) (l + 1) F Hq ltac:(lia) ltac:(lia) ltac:(lia)) as [i' Hi'].
+        exists i'. rewrite Hi'. f_equal. f_equal. rewrite zlen_app_one. lia.
+      + exists m. f_equal. f_equal. unfold zlen. cbn [length]. lia.
+  Qed.
+End Base128Loop.
+
+Lemma base128_int_length_meaning n :
+  min_i64 <= n <= max_i64 ->
+  base128_int_length_gen n = zlen (append_base128 n) /\ 0 <= base128_int_length_gen n <= 10.
+Proof.
+  intros Hn. rewrite max_i64_eq, min_i64_eq in Hn. unfold base128_int_length_gen, append_base128.
+  destruct (Z.eqb_spec n 0) as [->|Hnz].
+  { split; [reflexivity|lia]. }
+  destruct (Z.ltb_spec n 0) as [Hneg|Hpos].
+  - change 16%nat with (S 15). rewrite while_fuel_S. cbv beta iota.
+    destruct (Z.gtb_spec n 0); [lia|]. split; [reflexivity|lia].
+  - change 16%nat with (S 15). rewrite while_fuel_S. cbv beta iota.
+    destruct (Z.gtb_spec n 0) as [_|]; [|lia].
+    rewrite shr64_7, (add64_small 0) by lia.
+    assert (Hq : 0 <= n / 128 < 128 ^ Z.of_nat 10).
+    { split; [apply Z.div_pos; lia|]. apply Z.div_lt_upper_bound; [lia|].
+      change (128 * 128 ^ Z.of_nat 10) with (8192 * (2 * two63)). pose proof two63_pos. lia. }
+    match goal with |- context [while_fuel ?F ?c ?b ?s] =>
+      destruct (base128_loop_spec c b ltac:(intros; cbv beta iota; first [reflexivity | lia]) (fun _ _ => eq_refl) 10%nat (n / 128) (0 + 1) F Hq ltac:(lia) ltac:(cbn; lia) ltac:(lia)) as [i' Hw]
+    end.
+    rewrite Hw. rewrite zlen_app_one.
+    pose proof (b128_hi_length 10 (n / 128) 9) as Hl.
+    assert (Hq9 : 0 <= n / 128 < 128 ^ Z.of_nat 9).
+    { split; [apply Z.div_pos; lia|]. apply Z.div_lt_upper_bound; [lia|].
+      change (128 * 128 ^ Z.of_nat 9) with (64 * (2 * two63)). pose proof two63_pos. lia. }
+    specialize (Hl Hq9). unfold zlen in *. split; lia.
+Qed.
